@@ -135,6 +135,11 @@ type State struct {
 	callOrd map[string]int // per callee short name: calls seen so far on this path
 	lenv    map[string]Value // loop-carried names visible to contract expressions
 	locals  map[string]Value // source-level local variables (from ssa DebugRef)
+	domain  []*Term          // message layer: callee ok-domains assumed on this path
+	canon   []*Term          // message layer: round-trip domain collected on this path
+	calls   []*CallRecord
+	marks   []string
+	written map[string]bool // receiver fields stored to (objID.field)
 }
 
 func (s *State) clone() *State {
@@ -151,6 +156,11 @@ func (s *State) clone() *State {
 		callOrd: map[string]int{},
 		lenv:    s.lenv,
 		locals:  s.locals,
+		domain:  append([]*Term{}, s.domain...),
+		canon:   append([]*Term{}, s.canon...),
+		calls:   append([]*CallRecord{}, s.calls...),
+		marks:   append([]string{}, s.marks...),
+		written: map[string]bool{},
 	}
 	for k, v := range s.env {
 		n.env[k] = v
@@ -166,6 +176,9 @@ func (s *State) clone() *State {
 	}
 	for k, v := range s.callOrd {
 		n.callOrd[k] = v
+	}
+	for k, v := range s.written {
+		n.written[k] = v
 	}
 	return n
 }
@@ -199,13 +212,58 @@ func (s *State) assume(t *Term) {
 	if t.IsTrue() {
 		return
 	}
+	if t.Op == "app" && (t.Name == "extends" || t.Name == "suffixof") {
+		// skolemise: introduce the unknown piece as a fresh symbol so that the structure stays visible
+		a, b := t.Args[0], t.Args[1]
+		j := FreshSeq("piece")
+		s.pc = append(s.pc, App("bytes", SBool, j))
+		if t.Name == "extends" {
+			s.pc = append(s.pc, Eq(a, Cat(b, j)))
+		} else {
+			s.pc = append(s.pc, Eq(b, Cat(j, a)))
+		}
+		return
+	}
 	if t.Op == "and" {
 		for _, a := range t.Args {
 			s.assume(a)
 		}
 		return
 	}
+	if t.Op == "=>" && s.allImplied(t.Args[0]) {
+		s.assume(t.Args[1])
+		return
+	}
 	s.pc = append(s.pc, t)
+	if t.Op != "=>" {
+		s.saturate()
+	}
+}
+
+func (s *State) allImplied(h *Term) bool {
+	if h.Op == "and" {
+		for _, a := range h.Args {
+			if !s.allImplied(a) {
+				return false
+			}
+		}
+		return true
+	}
+	return s.implied(h) == 1
+}
+
+// saturate applies modus ponens to implications of the path condition whose hypotheses have become facts.
+func (s *State) saturate() {
+	for changed := true; changed; {
+		changed = false
+		for i, p := range s.pc {
+			if p.Op == "=>" && s.allImplied(p.Args[0]) {
+				s.pc[i] = True
+				changed = true
+				s.assume(p.Args[1])
+			}
+		}
+	}
 }
 
 // ---------------------------------------------------------------- types
